@@ -152,7 +152,7 @@ fn sub_case(v: &Value, idx: usize, g: &mut G2, rep: &Report, cnt: &mut Counts, s
                             if let Some(f) = memchr::arch::all::packedpair::Finder::with_pair(n, pair) {
                                 let _ = f.find_prefilter(h);
                             }
-                            #[cfg(target_arch = "x86_64")]
+                            #[cfg(verif_x86)]
                             {
                                 use memchr::arch::x86_64::{avx2, sse2};
                                 if let Some(f) = sse2::packedpair::Finder::with_pair(n, pair) {
